@@ -558,7 +558,11 @@ def run(ctx):
         "type tests mean class_path equality (a subclass instance does not satisfy a test for its base class)",
         "ordering is compared only when the requested keys make the order total; NULL order keys are not generated",
     ]
+    import time
+    t0 = time.time()
+    timing = ctx.notes.setdefault('timing_s', {})
     built = ctx.build()
+    timing['build'] = round(time.time() - t0, 1)
     cases = gen_cases(ctx)
     corpus_dir = os.path.join(common.VERIF, "corpus", "C10")
     corpus = []
@@ -580,7 +584,9 @@ def run(ctx):
         cur.append(c)
     if cur:
         chunks.append(cur)
+    t1 = time.time()
     outs = common.run_impl_parallel("c10_impl", [{"cases": ch} for ch in chunks], timeout=900)
+    timing['impl'] = round(time.time() - t1, 1)
     results = []
     for ch, o in zip(chunks, outs):
         if "__error__" in o:
@@ -599,8 +605,12 @@ def run(ctx):
     have_model = os.path.exists(os.path.join(common.COQ, "C10", "Model.vo"))
     if have_model:
         hdr = ctx.header(["Model"])
+        t2 = time.time()
         bad, log = ctx.eval_cases(hdr, "case", "check_case", terms, shard=40)
+        timing['coq_check'] = round(time.time() - t2, 1)
+        t3 = time.time()
         lab, log2 = coq_map_cases("C10", hdr, "case_labels", terms, ctx.rundir)
+        timing['coq_labels'] = round(time.time() - t3, 1)
         if lab is None:
             ctx.obligation("labels", "harness", False, log2[-600:])
             lab = [0] * len(terms)
